@@ -1133,6 +1133,18 @@ func (u *Unit) specCall(e *SExpr, ctx *specCtx) (Val, error) {
 		}
 		return u.specVal(sf.Body, &n)
 	}
+	// T(x): conversion to a named type with the same representation (e.g. a named string type)
+	if len(e.Args) == 1 {
+		if ty, srt, err := u.resolveSpecType(e.Name, ctx); err == nil && ty != nil {
+			x, err := u.specVal(e.Args[0], ctx)
+			if err != nil {
+				return Val{}, err
+			}
+			if x.sort(u) == srt {
+				return Val{T: x.T, Ty: ty}, nil
+			}
+		}
+	}
 	return Val{}, fmt.Errorf("unknown spec function %s", e.Name)
 }
 
